@@ -20,6 +20,10 @@ if "--tier" in sys.argv:
 d = "/verif/seeded/%s" % sid
 meta = json.load(open(os.path.join(d, "meta.json")))
 pid = meta["property"]
+other = None
+if "--check" in sys.argv:   # run ANOTHER property's check against this change (recorded under check_result_other)
+    other = sys.argv[sys.argv.index("--check") + 1]
+    pid = other
 patch = os.path.join(d, "patch.diff")
 t0 = time.time()
 if apply:
@@ -52,7 +56,10 @@ if viol:
             res["replay_summary"] = {k: (v if len(str(v)) < 600 else str(v)[:600] + "…") for k, v in rp.items() if k in ("kind", "oracle", "case", "detail", "broken")}
         except Exception:
             pass
-meta["check_result"] = res
+if other:
+    meta.setdefault("check_result_other", {})[other] = res
+else:
+    meta["check_result"] = res
 json.dump(meta, open(os.path.join(d, "meta.json"), "w"), indent=1)
 print(out[-2500:])
 print("run_seeded:", sid, "caught" if res["caught"] else "MISSED", res)
